@@ -89,6 +89,27 @@ class Checker(object):
                     text = f.to_smtlib(daggify=False)
                 elif how == 'dag':
                     text = f.to_smtlib(daggify=True)
+                elif how.startswith('multi'):
+                    # one script, one assert per conjunct: the commands
+                    # share sub-terms and one printer serializes them all
+                    if ft != B.BOOL or not f.is_and() or len(f.args()) < 2:
+                        return 'build', 'multi-assert scripts need a ' \
+                            'conjunction'
+                    from pysmt.smtlib.script import SmtLibCommand
+                    import pysmt.smtlib.commands as smtcmd
+                    sc = smtlibscript_from_formula(f)
+                    cmds = []
+                    for c in sc.commands:
+                        if c.name == smtcmd.ASSERT:
+                            for kid in f.args():
+                                cmds.append(SmtLibCommand(smtcmd.ASSERT,
+                                                          [kid]))
+                        else:
+                            cmds.append(c)
+                    sc.commands = cmds
+                    buf = StringIO()
+                    sc.serialize(buf, daggify=(how == 'multi-dag'))
+                    text = buf.getvalue()
                 else:
                     if ft != B.BOOL:
                         return 'build', 'scripts assert Boolean formulas'
@@ -109,10 +130,17 @@ class Checker(object):
             else:
                 rd = S.read_script(text)
                 live = rd.live_assertions()
-                if len(live) != 1:
+                if how.startswith('multi'):
+                    if len(live) != len(fb[2]):
+                        return 'malformed', 'script has %d assertions for ' \
+                            '%d conjuncts:\n%s' % (len(live), len(fb[2]),
+                                                   text[:300])
+                    rb = ('and', None, tuple(live))
+                elif len(live) != 1:
                     return 'malformed', 'script has %d assertions:\n%s' % (
                         len(live), text[:300])
-                rb = live[0]
+                else:
+                    rb = live[0]
                 # every symbol of the formula is declared with its type
                 dd = rd.declared()
                 for n, t in decls.items():
@@ -247,6 +275,21 @@ def special_cases(names):
     out.append(('and', None, (
         ('eq', None, (B.Sym('q1', P1), B.Sym('q2', P1))),
         ('eq', None, (B.Sym('q3', P2), B.Sym('q4', P2))))))
+    # sorts that occur only in a binder
+    for qt in (('U', 'OnlyBound'), B.ARR(('U', 'OnlyIdx'), B.INT),
+               ('U', 'Pair', (('U', 'OnlyArg'), B.INT)), B.BV(5)):
+        out.append(('forall', (('qonly', qt),), (p,)))
+        out.append(('and', None, (p, ('exists', (('qonly', qt), ('q2', B.INT)),
+                                      (('le', None, (B.Sym('q2', B.INT),
+                                                     x)),)))))
+    # conjunctions whose conjuncts share compound sub-terms
+    sh = ('plus', None, (x, ('times', None, (B.Int(3), x))))
+    out.append(('and', None, (('le', None, (sh, B.Int(7))),
+                              ('le', None, (B.Int(-2), sh)),
+                              ('not', None, (('eq', None, (sh, x)),)))))
+    shb = ('or', None, (d0, ('and', None, (p, d1))))
+    out.append(('and', None, (shb, ('implies', None, (shb, p)),
+                              ('iff', None, (shb, d1)))))
     fS = B.FUN(G.US, (G.US,))
     out.append(('eq', None, (B.App('f', fS, (B.App('f', fS, (
         B.Sym('u', G.US),)),)), B.Sym('u', G.US))))
@@ -280,7 +323,8 @@ def run(rep):
     rng = ck.rng
     quick = rep.tier == 'quick'
     names = hostile_names(random.Random(rep.seed + 11), 160)
-    hows = ['tree', 'dag', 'script-tree', 'script-dag']
+    hows = ['tree', 'dag', 'script-tree', 'script-dag', 'multi-dag',
+            'multi-tree']
     j = 0
     common.fresh_env()
     for i, b in enumerate(special_cases(names)):
@@ -292,6 +336,7 @@ def run(rep):
             ck.check(how, b, j)
             j += 1
     # every operator with systematic operand shapes
+    rep.share(0.4)
     sysl = [b for (_, _, b) in G.systematic(
         random.Random(rep.seed * 3 + 1), nconst=3, max_per_sig=20 if quick
         else 200)]
@@ -307,6 +352,7 @@ def run(rep):
             j += 1
     n = 250 if quick else 40000
     k = 0
+    rep.share(1.0)
     while k < n and not rep.out_of_time():
         if k % 100 == 0:
             common.fresh_env()
